@@ -26,6 +26,7 @@ struct MapSettle {
             if (hit == ok.size()) { R.corrupt("state", std::string(which) + " is " + show(S) + "; before " + show(model) + ", intended " + show(ok.back())); R.res.count("fault-state:unacceptable"); }
             else if (which[0] == 'A') R.res.count(std::string("fault-state:") + (hit + 1 == ok.size() ? (S == model ? "noop" : "full") : hit == 0 ? "none" : "prefix"));
         }
+        if (S != model) R.opChanged = true;
         model = S;
     }
 };
@@ -47,6 +48,7 @@ template <class KE, class VE> struct MapRun {
         hashMode() = (int)(kn.num("hash", 0) % 3);
         a = new M(R.mm, lfA, mbA, (size_t)(kn.num("etA", 3) & 63));
         b = new M(R.mm, lfB, mbB, (size_t)(kn.num("etB", 3) & 63));
+        R.snapshot = [this] { Json o = Json::object(); o["op"] = "force_state"; o["a"] = jsonMap(ma); o["b"] = jsonMap(mb); return o; };
     }
     IM read(const Base& m, const char* which) {
         IM r; size_t cnt = 0;
@@ -96,7 +98,12 @@ template <class KE, class VE> struct MapRun {
         const size_t n = ma.size(), nb0 = a->nbuckets(), ec0 = a->eraseCount(); const bool free0 = a->freeNonEmpty();
         const int k = (int)(R.uarg("k") & 0xfff), v = R.vid();
         IM post = ma; const bool present = ma.count(k) != 0;
-        if (o == "insert" || o == "insert_pair") {
+        if (o == "force_state") {
+            const std::vector<int> va = R.vals("a"), vb = R.vals("b"); IM wa, wb; a->clear(); b->clear();
+            for (size_t i = 0; i + 1 < va.size(); i += 2) { KVal kx(va[i], R.mm); VVal vx(va[i + 1], R.mm); a->insert(kx.x, vx.x); wa[va[i]] = va[i + 1]; }
+            for (size_t i = 0; i + 1 < vb.size(); i += 2) { KVal kx(vb[i], R.mm); VVal vx(vb[i + 1], R.mm); b->insert(kx.x, vx.x); wb[vb[i]] = vb[i + 1]; }
+            std::vector<IM> okB = two(mb, wb); after(two(ma, wa), -1, &okB);
+        } else if (o == "insert" || o == "insert_pair") {
             KVal kx(k, R.mm); VVal vx(v, R.mm); if (!present) post[k] = v;
             R.kind = o + (present ? "-existing" : "-new");
             if (o == "insert") R.call([&] { a->insert(kx.x, vx.x); });
@@ -186,6 +193,7 @@ template <class E> struct SetRun {
         R.apiMethods = "insert,erase,find,count,clear,operator=,begin,end,size,XalanSet";
         hashMode() = (int)(R.plan.at("knobs").num("hash", 0) % 3);
         a = new S_(R.mm); b = new S_(R.mm);
+        R.snapshot = [this] { Json o = Json::object(); o["op"] = "force_state"; o["a"] = jsonMap(ma); o["b"] = jsonMap(mb); return o; };
     }
     IM read(const S_& s, const char* which) {
         IM r; size_t cnt = 0;
@@ -224,7 +232,12 @@ template <class E> struct SetRun {
         R.stateClass = std::string(n == 0 ? "empty" : n < 39 ? "below-rehash-threshold" : n == 39 ? "at-rehash-threshold" : "beyond-first-rehash") + (erases % 50 == 49 ? "+at-compaction-threshold" : "");
         const int k = (int)(R.uarg("k") & 0xfff);
         IM post = ma; const bool present = ma.count(k) != 0;
-        if (o == "insert") {
+        if (o == "force_state") {
+            const std::vector<int> va = R.vals("a"), vb = R.vals("b"); IM wa, wb; a->clear(); b->clear(); erases = 0;
+            for (size_t i = 0; i + 1 < va.size(); i += 2) { Val kx(va[i], R.mm); a->insert(kx.x); wa[va[i]] = 1; }
+            for (size_t i = 0; i + 1 < vb.size(); i += 2) { Val kx(vb[i], R.mm); b->insert(kx.x); wb[vb[i]] = 1; }
+            std::vector<IM> okB = two(mb, wb); after(two(ma, wa), -1, &okB);
+        } else if (o == "insert") {
             Val kx(k, R.mm); post[k] = 1; R.kind = present ? "insert-existing" : "insert-new";
             R.call([&] { a->insert(kx.x); }); after(two(ma, post), k);
         } else if (o == "erase") {
